@@ -32,6 +32,15 @@ impl TxOut {
             Err(e) => return Err(BSVErrors::DeserialiseTxOut("script_pub_key_size".to_string(), e)),
         };
 
+        // The declared size must fit in what is left of the input (do not allocate on the input's say-so)
+        let remaining = (cursor.get_ref().len() as u64).saturating_sub(cursor.position());
+        if script_pub_key_size > remaining {
+            return Err(BSVErrors::DeserialiseTxOut(
+                "script_pub_key".to_string(),
+                std::io::Error::new(std::io::ErrorKind::UnexpectedEof, "declared script size exceeds the remaining input"),
+            ));
+        }
+
         // Script Pub Key
         let mut script_pub_key = vec![0; script_pub_key_size as usize];
         if let Err(e) = cursor.read(&mut script_pub_key) {
